@@ -7,6 +7,7 @@ import (
 	"crypto/ed25519"
 	"crypto/elliptic"
 	"crypto/sha256"
+	"crypto/sha512"
 	"crypto/x509"
 	"encoding/json"
 	"fmt"
@@ -128,7 +129,12 @@ var digestAlphabet = func() [][]byte {
 
 // inboundOf drains the adapter's inbound queue (unexported channel) and returns the senders the
 // queued messages are attributed to.
-func inboundOf(a adapter) ([]uint16, bool) {
+type inb struct {
+	key   uint16
+	index int
+}
+
+func inboundOf(a adapter) ([]inb, bool) {
 	v := reflect.ValueOf(a)
 	for v.Kind() == reflect.Ptr || v.Kind() == reflect.Interface {
 		v = v.Elem()
@@ -138,14 +144,14 @@ func inboundOf(a adapter) ([]uint16, bool) {
 		return nil, false
 	}
 	ch := reflect.NewAt(f.Type(), unsafe.Pointer(f.UnsafeAddr())).Elem()
-	var out []uint16
+	var out []inb
 	for {
 		x, ok := ch.TryRecv()
 		if !ok {
 			break
 		}
 		if m, ok := x.Interface().(tss.Message); ok && m.GetFrom() != nil {
-			out = append(out, uint16(new(big.Int).SetBytes(m.GetFrom().Key).Uint64()))
+			out = append(out, inb{uint16(new(big.Int).SetBytes(m.GetFrom().Key).Uint64()), m.GetFrom().Index})
 		}
 	}
 	return out, true
@@ -202,30 +208,42 @@ func classify(c *harness.C, scheme string, n, thr int, caps []capMsg) {
 // senderBinding: every captured message from a is re-fed as coming from every b != a; what reaches
 // the library is attributed to b or dropped, never to a.
 func senderBinding(c *harness.C, scheme string, n, thr int, caps []capMsg) {
-	parties := ids(n)
+	// the receiving committee has gaps, so that non-members lie below, between and above members
+	committee := []uint16{2, 3, 5, 8}[:min(n, 4)]
+	if n < 3 {
+		committee = []uint16{2, 5}
+	}
+	senders := []uint16{0, 1, 2, 3, 4, 5, 6, 7, 8, 9, 300}
+	pos := map[uint16]int{}
+	for i, m := range committee {
+		pos[m] = i
+	}
 	seenType := map[string]bool{}
 	for _, m := range caps {
 		url := typeURL(m.Data)
-		if seenType[fmt.Sprint(m.From, url)] {
+		if seenType[url] {
 			continue
 		}
-		seenType[fmt.Sprint(m.From, url)] = true
-		for _, b := range parties {
-			if b == m.From {
-				continue
-			}
-			recv := newAdapter(scheme, parties[0])
-			recv.Init(parties, thr, func([]byte, bool, uint16) {})
+		seenType[url] = true
+		for _, b := range senders {
+			recv := newAdapter(scheme, committee[0])
+			recv.Init(committee, thr, func([]byte, bool, uint16) {})
 			recv.OnMsg(m.Data, b, m.Bcast)
 			c.Add("evaluations", 1)
-			from, ok := inboundOf(recv)
+			queued, ok := inboundOf(recv)
 			if !ok {
 				c.Note("c19-inbound-queue", "adapter's inbound queue not reachable by reflection: sender-binding clause skipped")
 				return
 			}
-			for _, f := range from {
-				if f != b {
-					c.Violation("sender-binding", "c19-message-attributed-to-other-sender:"+scheme, fmt.Sprintf("%s: a message of %d delivered by %d reached the library attributed to %d", scheme, m.From, b, f), replay{scheme, n, thr, "sender-binding"})
+			for _, q := range queued {
+				p, member := pos[b]
+				switch {
+				case q.key != b:
+					c.Violation("sender-binding", "c19-message-attributed-to-other-sender:"+scheme, fmt.Sprintf("%s: a message delivered by %d reached the library attributed to key %d", scheme, b, q.key), replay{scheme, n, thr, "sender-binding"})
+				case member && q.index != p:
+					c.Violation("sender-binding", "c19-message-attributed-to-other-index:"+scheme, fmt.Sprintf("%s: a message delivered by member %d (position %d of %v) reached the library with index %d", scheme, b, p, committee, q.index), replay{scheme, n, thr, "sender-binding"})
+				case !member && q.index >= 0 && q.index < len(committee):
+					c.Violation("sender-binding", "c19-non-member-attributed-to-member:"+scheme, fmt.Sprintf("%s: a message delivered by %d, which is not in the committee %v, reached the library with index %d, i.e. attributed to member %d", scheme, b, committee, q.index, committee[q.index]), replay{scheme, n, thr, "sender-binding"})
 				}
 			}
 		}
@@ -490,8 +508,11 @@ func ecdsaCase(n, thr int) harness.Case {
 			b, _ := json.Marshal(sv)
 			shares[id] = b
 		}
-		for di, dg := range digestAlphabet {
-			if di > 2 && !c.Thorough() {
+		long48 := sha512sum384([]byte("c19-long"))
+		long64 := sha512sum([]byte("c19-long"))
+		ecDigests := append(append([][]byte(nil), digestAlphabet...), long48, long64)
+		for di, dg := range ecDigests {
+			if di > 2 && di < len(digestAlphabet) && !c.Thorough() {
 				continue
 			}
 			dg := dg
@@ -521,6 +542,9 @@ func ecdsaCase(n, thr int) harness.Case {
 					if dg[0] == 0 {
 						cl = "leading-zero-digest"
 					}
+					if len(dg) > 32 {
+						cl = "long-digest"
+					}
 					c.Violation("signature-for-requested-digest", "c19-ecdsa-signature-not-for-requested-digest:"+cl, fmt.Sprintf("%s: the signature party %d returned does not verify for the requested digest#%d", what, id, di), replay{"ecdsa", n, thr, "sign"})
 				}
 			}
@@ -529,6 +553,9 @@ func ecdsaCase(n, thr int) harness.Case {
 		c.Sample("ecdsa", map[string]interface{}{"n": n, "t": thr, "captured_messages": len(caps)})
 	}}
 }
+
+func sha512sum(b []byte) []byte    { h := sha512.Sum512(b); return h[:] }
+func sha512sum384(b []byte) []byte { h := sha512.Sum384(b); return h[:] }
 
 func gen(c *harness.C) []harness.Case {
 	c.Note("rule", "every message passed to sendMsg / emitted by the library during complete key-generation and signing runs for several (n,t): ClassifyMsg on a fresh adapter must agree with the routing flag, broadcast-class types of one phase get pairwise distinct rounds, each message re-fed as coming from every other party is attributed to that party or dropped, Sign over the digest alphabet (incl. leading zero bytes) returns a signature that verifies for exactly the requested digest, and with mismatching digests nobody returns a signature for a digest it was not asked to sign; EdDSA through the adapters end to end, ECDSA with the library run on fixture pre-parameters (P-256) and the adapter's classifier/Sign on its output; distinct_nontrivial = distinct (scheme, phase, message type) and signing cells")
